@@ -7,26 +7,31 @@
    documented relation (connstate.go + the comments in monitor()): Closed->Connecting->Connected,
            Connected->Disconnected->Reconnecting->(Reconnecting)*->Connected, anything->Closed. *)
 From Coq Require Import List Bool Arith.
-From Opcua Require Import Model.ClientSession Model.ClientMonitor Proofs.ClientMonitorProofs.
+From Opcua Require Import Model.ClientSession Model.ClientMonitor Proofs.ClientMonitorProofs Gen.ClientMonitorStates.
 Import ListNotations.
+Open Scope list_scope.
+Open Scope nat_scope.
 
 Definition C25_statement_transitions : Prop :=
   forall auto e fuel ev, path_ok (m_states (reconnect auto e fuel ev)) = true.
 
 Definition env0 : env := {| dials := []; activates := []; creates := []; namespaces := [] |}.
 
-(* refuted: BadSubscriptionIDInvalid selects transferSubscriptions, which never reports Reconnecting: the application
-   sees Connected -> Disconnected -> Connected *)
-Theorem C25_refuted_subscription_invalid : ~ C25_statement_transitions.
+(* the states each reconnect action reports in the source (Gen.ClientMonitorStates.action_states, read off the
+   `switch action` of monitor() on every run) are exactly the ones the model emits *)
+Theorem C25_model_reports_what_the_code_reports : action_states = expected_action_states true.
+Proof. reflexivity. Qed.
+
+(* FULL: every error class, any environment, any number of actions, auto-reconnect on or off: only documented
+   transitions are reported *)
+Theorem C25_transitions_documented : C25_statement_transitions.
+Proof. intros auto e fuel ev. apply reconnect_transitions_documented. Qed.
+
+(* the defect that was fixed (known_findings.txt `fixed:`): when transferSubscriptions did not report Reconnecting, a
+   BadSubscriptionIDInvalid error gave Connected -> Disconnected -> Connected *)
+Theorem C25_refuted_before_fix :
+  ~ (forall auto e fuel ev, path_ok (m_states (reconnect_gen false auto e fuel ev)) = true).
 Proof. intros H. specialize (H true ESubscriptionInvalid 8 env0). vm_compute in H. discriminate. Qed.
-
-(* every other error class, any environment, any number of actions, auto-reconnect on or off *)
-Theorem C25_partial_transitions_documented :
-  forall auto e fuel ev, e <> ESubscriptionInvalid -> path_ok (m_states (reconnect auto e fuel ev)) = true.
-Proof. intros. apply reconnect_transitions_documented. assumption. Qed.
-
-Example C25_partial_hypothesis_satisfiable : EEOF <> ESubscriptionInvalid.
-Proof. discriminate. Qed.
 
 Definition recoverable (e : err_class) : bool :=
   match e with ERefused | ENoSubscription => false | _ => true end.
@@ -77,8 +82,9 @@ Proof.
     + destruct fuel; reflexivity.
 Qed.
 
-Print Assumptions C25_refuted_subscription_invalid.
-Print Assumptions C25_partial_transitions_documented.
+Print Assumptions C25_model_reports_what_the_code_reports.
+Print Assumptions C25_transitions_documented.
+Print Assumptions C25_refuted_before_fix.
 Print Assumptions C25_reconnects_when_all_succeed.
 Print Assumptions C25_reconnects_eventually_bounded.
 Print Assumptions C25_no_reconnect_closes.
